@@ -218,6 +218,15 @@ class Program:
     def methods_of(self, clsname):
         return [f for f in self.fns.values() if f.cls == clsname]
 
+    def class_family(self, template):
+        """[pattern class dict (if analysed)] + every analysed specialisation of the class template"""
+        out = []
+        for n, c in sorted(self.classes.items()):
+            if (n == template and c.get("pattern")) or c.get("template") == template:
+                out.append(c)
+        out.sort(key=lambda c: (0 if c.get("pattern") else 1, c["name"]))
+        return out
+
 
 # --------------------------------------------------------------------------- expressions
 
